@@ -3,9 +3,8 @@
      * function names are pairwise distinct and differ from nothing else (only functions are named by these ids),
      * every call refers to an EARLIER function with the right number of arguments,
      * every variable is bound (parameter, dsp input or enclosing let),
-     * `self` occurs only inside functions (not in dsp),
-     * no stateful construct (mem, delay, call of a stateful function) occurs inside an arm of an `if`
-       (finding F2: mirgen's Expr::If does not save/restore the state-offset context per arm). *)
+     * `self` occurs only inside functions (not in dsp).
+   (Stateful constructs inside `if` arms are allowed since the repair of finding F2.) *)
 From Coq Require Import List ZArith NArith Bool.
 From Mimium Require Import Lmmm.Syntax.
 Import ListNotations.
@@ -46,8 +45,7 @@ Fixpoint wf_expr (g : sigenv) (in_fun : bool) (vars : list ident) (e : expr) : b
   | ENeg a => wf_expr g in_fun vars a
   | ELet x a b => wf_expr g in_fun vars a && wf_expr g in_fun (x :: vars) b
   | EIf c t e' =>
-      wf_expr g in_fun vars c && wf_expr g in_fun vars t && wf_expr g in_fun vars e' &&
-      negb (stateful_expr g t) && negb (stateful_expr g e')
+      wf_expr g in_fun vars c && wf_expr g in_fun vars t && wf_expr g in_fun vars e'
   | ECall f args =>
       forallb (wf_expr g in_fun vars) args &&
       match sig_lookup f g with Some (ar, _) => Nat.eqb ar (length args) | None => false end
